@@ -241,7 +241,7 @@ Section P.
 
   Lemma generic_fold_cases isf st n :
     (exists r, generic_fold isf st n = DKeep V r st) \/
-    (exists y v, (generic_fold isf st n = DFoldInit V y v \/ generic_fold isf st n = DFoldConst V y v) /\
+    (exists y v, (generic_fold isf st n = DFoldInit V st y v \/ generic_fold isf st n = DFoldConst V st y v) /\
         is_onnx n "Constant" = false /\ is_control_flow n = false /\ all_const st n /\
         (forall x, In x (present (n_ins n)) -> ~ In x (c_graph_inputs cfg)) /\
         n_outs n = [y] /\ ref_eval (n_dom n) (n_op n) (n_attrs n) (map (get_const V st) (n_ins n)) = Some [v]).
@@ -350,26 +350,63 @@ Section P.
     - rewrite <- F. f_equal. apply map_ext. intros [x|]; cbn; [symmetry; apply C|reflexivity].
   Qed.
 
-  Lemma decide_fold (Hpe : pe_ok) isf st n y v :
-    decide isf st n = DFoldInit V y v \/ decide isf st n = DFoldConst V y v -> fold_conditions st n y v.
+  Lemma decide_fold (Hpe : pe_ok) isf st n ste y v :
+    decide isf st n = DFoldInit V ste y v \/ decide isf st n = DFoldConst V ste y v -> fold_conditions st n y v /\ keep_state st n ste.
   Proof.
     unfold Fold.decide. destruct (assoc (n_dom n) (c_opsets cfg)) as [ver|]; [|intros [H|H]; discriminate].
     assert (G : forall st', (forall x, assoc x (s_const V st') = assoc x (s_const V st)) ->
-                generic_fold isf st' n = DFoldInit V y v \/ generic_fold isf st' n = DFoldConst V y v -> fold_conditions st n y v).
-    { intros st' C H. apply (fold_conditions_facts st st'); [exact C|].
+                generic_fold isf st' n = DFoldInit V ste y v \/ generic_fold isf st' n = DFoldConst V ste y v ->
+                fold_conditions st n y v /\ ste = st').
+    { intros st' C H.
       destruct (generic_fold_cases isf st' n) as [[r' G]|[y' [v' [G Cnd]]]].
       - rewrite G in H. destruct H; discriminate.
-      - assert (y' = y /\ v' = v) as [-> ->] by (destruct G as [G|G], H as [H|H]; rewrite G in H; inversion H; auto).
-        exact Cnd. }
-    destruct (registered (n_dom n) (n_op n) ver).
-    - destruct (String.eqb (n_op n) "Identity").
-      + apply G. destruct (pe_identity_facts st n) as [[C _]|(x & y0 & _ & _ & _ & C & _)]; exact C.
+      - assert (y' = y /\ v' = v /\ ste = st') as (-> & -> & ->) by (destruct G as [G|G], H as [H|H]; rewrite G in H; inversion H; auto).
+        split; [|reflexivity]. apply (fold_conditions_facts st st'); [exact C|exact Cnd]. }
+    destruct (registered (n_dom n) (n_op n) ver) eqn:Rg.
+    - pose proof (registered_dom _ _ _ Rg) as D.
+      destruct (String.eqb (n_op n) "Identity") eqn:EI.
+      + apply String.eqb_eq in EI. intro H. destruct (G (pe_identity V st n)) as [FC ->]; [|exact H|].
+        * destruct (pe_identity_facts st n) as [[C _]|(x & y0 & _ & _ & _ & C & _)]; exact C.
+        * split; [exact FC|]. apply KIdentity; auto.
       + destruct (String.eqb (n_op n) "If").
-        * destruct (pe_if st n); try (apply G; reflexivity). intros [H|H]; discriminate.
+        * destruct (pe_if st n); try (intro H; destruct (G st (fun _ => eq_refl) H) as [FC ->]; split; [exact FC|apply KSame, facts_eq_refl]).
+          intros [H|H]; discriminate.
         * pose proof (Hpe st n) as P. destruct (pe st n) as [st1|st1 R'|? ? ?| |]; try (intros [H|H]; discriminate).
-          apply G. destruct P as [C _]. exact C.
-    - apply G. reflexivity.
+          intro H. destruct (G st1 (proj1 P) H) as [FC ->]. split; [exact FC|apply KSame; exact P].
+    - intro H. destruct (G st (fun _ => eq_refl) H) as [FC ->]. split; [exact FC|apply KSame, facts_eq_refl].
   Qed.
+
+  (* after a fold the fresh value named y has no symbolic value: with the recorded facts silent about y before, the
+     state handed on by the evaluators carries the same facts as the state before them *)
+  Lemma sym_val_drop_same st y : sym_val V (drop_sym V st y) y = None.
+  Proof.
+    unfold sym_val, drop_sym. cbn [s_sym]. induction (s_sym V st) as [|[k w] t IH]; cbn; [reflexivity|].
+    destruct (String.eqb y k) eqn:E; [exact IH|]. cbn. rewrite E. exact IH.
+  Qed.
+  Lemma sym_val_drop_other st y z : z <> y -> sym_val V (drop_sym V st y) z = sym_val V st z.
+  Proof.
+    intro N. unfold sym_val, drop_sym. cbn [s_sym]. induction (s_sym V st) as [|[k w] t IH]; cbn; [reflexivity|].
+    destruct (String.eqb y k) eqn:E.
+    - apply String.eqb_eq in E. subst k. destruct (String.eqb z y) eqn:E2; [apply String.eqb_eq in E2; contradiction|exact IH].
+    - cbn. destruct (String.eqb z k); [reflexivity|exact IH].
+  Qed.
+  Lemma keep_state_drop st n ste y : keep_state st n ste -> n_outs n = [y] -> sym_val V st y = None ->
+    facts_eq st (drop_sym V ste y).
+  Proof.
+    intros KS O Sy.
+    assert (K : s_guard V ste = s_guard V st /\ (forall z, assoc z (s_const V ste) = assoc z (s_const V st)) /\
+                forall z, z <> y -> sym_val V ste z = sym_val V st z).
+    { destruct KS as [(C & S & G)|Op Dm ->]; [repeat split; auto|].
+      destruct (pe_identity_facts st n) as [(C & S & G)|(x & y' & Ix & Oy & Gd & C & S1 & S2)]; [repeat split; auto|].
+      unfold out0 in Oy. rewrite O in Oy. inversion Oy; subst y'. repeat split; auto. }
+    destruct K as (G & C & S). split; [|split].
+    - intro x. cbn. apply C.
+    - intro x. destruct (string_dec x y) as [->|N]; [rewrite sym_val_drop_same; symmetry; exact Sy|].
+      rewrite sym_val_drop_other by exact N. apply S. exact N.
+    - cbn. exact G.
+  Qed.
+  Lemma not_fname_sym st y : ~ In y (fnames V st) -> sym_val V st y = None.
+  Proof. intro N. destruct (sym_val V st y) as [x|] eqn:S; [|reflexivity]. exfalso. apply N. exact (proj1 (sym_fname st y x S)). Qed.
 
   Lemma decide_nodes isf st n st2 R : decide isf st n = DNodes V st2 R -> pe st n = PRepl V st2 R.
   Proof.
@@ -901,7 +938,7 @@ Section P.
       assert (G1 : s_guard V st1 = s_guard V st).
       { unfold st1. rewrite (proj1 (note_constant_ext st0 n)). exact (proj2 (proj2 F0)). }
       destruct (subst_node_fields st n0) as (Fd & Fo & Fu & Fa & Fs). fold n in Fd, Fo, Fu, Fa, Fs.
-      destruct (decide isf st1 n) as [r st2|y v|y v|st2 R|st2 R moved|] eqn:DE; [| | | | |discriminate].
+      destruct (decide isf st1 n) as [r st2|ste y v|ste y v|st2 R|st2 R moved|] eqn:DE; [| | | | |discriminate].
       - (* keep *)
         cbn [andb] in H. destruct (keep_ok V st0 n) eqn:KO; cbn [negb] in H; [|discriminate].
         destruct (visit_subs (n_outs n ++ bound) st2 (n_subs n)) as [[[[[st3 subs'] news_s] defd_s] trs]| | |] eqn:VS; try discriminate.
@@ -979,12 +1016,15 @@ Section P.
           set (st3 := s) in * end.
         inversion H; subst st' ns' inits' news defd tr. clear H.
         destruct (IH _ _ _ _ _ _ _ _ _ _ _ VR) as [EX4 SEM4].
-        pose proof (decide_fold Hpe isf st1 n y v (or_introl DE)) as FC.
+        destruct (decide_fold Hpe isf st1 n ste y v (or_introl DE)) as [FC KS].
         assert (E1 : st1 = st0) by (apply note_constant_noconst; exact (proj1 FC)).
+        assert (FD : facts_eq st0 (drop_sym V ste y)).
+        { rewrite <- E1. apply (keep_state_drop st1 n ste y KS); [exact (proj1 (proj2 (proj2 (proj2 (proj2 FC)))))|].
+          rewrite E1. apply not_fname_sym. apply (disjointb_spec _ _ KO). left; reflexivity. }
         assert (EX3 : ext st0 st3 [y]).
-        { unfold st3. rewrite E1.
+        { unfold st3.
           eapply ext_weaken with (X := [] ++ [y] ++ []); [|incl_solve].
-          eapply ext_trans; [apply facts_eq_ext, facts_del_node_uses|].
+          eapply ext_trans; [apply facts_eq_ext; eapply facts_eq_trans; [exact FD|apply facts_del_node_uses]|].
           eapply ext_trans; [apply ext_set_const|]. apply facts_eq_ext.
           eapply facts_eq_trans; [apply facts_set_shape_if|]. eapply facts_eq_trans; [apply facts_set_dtype_if|].
           eapply facts_eq_trans; [apply facts_register|apply facts_clear]. }
@@ -999,11 +1039,11 @@ Section P.
         assert (G0 : incl (s_guard V st0) (c_graph_inputs cfg)) by (rewrite (proj2 (proj2 F0)); exact GI).
         assert (Een : en = (y, v) :: e) by (eapply fold_step; [| |exact FC|exact En]; rewrite E1; [exact I0|exact G0]).
         assert (I3n : inv st3 en).
-        { unfold st3. rewrite E1, Een.
+        { unfold st3. rewrite Een.
           eapply facts_eq_inv.
           - eapply facts_eq_trans; [apply facts_set_shape_if|]. eapply facts_eq_trans; [apply facts_set_dtype_if|].
             eapply facts_eq_trans; [apply facts_register|apply facts_clear].
-          - apply inv_set_const. eapply facts_eq_inv; [apply facts_del_node_uses|].
+          - apply inv_set_const. eapply facts_eq_inv; [eapply facts_eq_trans; [exact FD|apply facts_del_node_uses]|].
             change ((y, v) :: e) with ([(y, v)] ++ e). apply inv_app; [exact I0|exact KO]. }
         destruct (SEM4 F en e1 I3n) as [e1' (R' & S' & I' & D')].
         { rewrite Een. change ((y, v) :: e) with ([(y, v)] ++ e). apply (dom_ok_app e bound [(y, v)] D). }
@@ -1013,14 +1053,18 @@ Section P.
         split; [exact R'|]. split; [exact S'|]. split; [exact I'|].
         eapply dom_ok_weaken; [exact D'|]. incl_solve.
       - (* fold into a Constant node (function bodies): the new node is visited next *)
+        cbn [andb] in H. destruct (disjointb [y] (fnames V st0)) eqn:KO; cbn [negb] in H; [|discriminate].
         match type of H with context [visit_nodes f isf ?b ?s ?i ?w] =>
           destruct (visit_nodes f isf b s i w) as [[[[[[st4 ns] inits2] news2] defd2] tr2]| | |] eqn:VR; try discriminate end.
         inversion H; subst st' ns' inits' news defd tr. clear H.
         destruct (IH _ _ _ _ _ _ _ _ _ _ _ VR) as [EX4 SEM4].
-        pose proof (decide_fold Hpe isf st1 n y v (or_intror DE)) as FC.
+        destruct (decide_fold Hpe isf st1 n ste y v (or_intror DE)) as [FC KS].
         assert (E1 : st1 = st0) by (apply note_constant_noconst; exact (proj1 FC)).
-        assert (FE : facts_eq st (del_node_uses V st1 n)).
-        { rewrite E1. eapply facts_eq_trans; [exact F0|apply facts_del_node_uses]. }
+        assert (FD : facts_eq st0 (drop_sym V ste y)).
+        { rewrite <- E1. apply (keep_state_drop st1 n ste y KS); [exact (proj1 (proj2 (proj2 (proj2 (proj2 FC)))))|].
+          rewrite E1. apply not_fname_sym. apply (disjointb_spec _ _ KO). left; reflexivity. }
+        assert (FE : facts_eq st (del_node_uses V (drop_sym V ste y) n)).
+        { eapply facts_eq_trans; [exact F0|]. eapply facts_eq_trans; [exact FD|apply facts_del_node_uses]. }
         split.
         { cbn [app]. eapply ext_weaken with (X := [] ++ defd2); [|incl_solve].
           eapply ext_trans; [apply facts_eq_ext; exact FE|exact EX4]. }
